@@ -1,10 +1,13 @@
 //! Conformance harness: binds the TLA+ specifications in /verif/spec to the
 //! implementation in /repo (path dependency, rebuilt from the working tree).
 
+mod auth_driver;
 #[allow(dead_code)]
 mod cases;
 mod graph;
+mod merkle_driver;
 mod pool_driver;
+mod sampler_driver;
 mod votor_driver;
 mod world;
 
@@ -25,6 +28,7 @@ fn main() -> anyhow::Result<()> {
         .and_then(|s| s.parse().ok())
         .unwrap_or(1);
     let out: Value = match cmd {
+        "replay-auth" => auth_driver::run(&args, seed)?,
         "replay-pool" => {
             let path = arg_after(&args, "--tlc-out").expect("--tlc-out");
             let stakes: Vec<u64> = arg_after(&args, "--stakes")
@@ -59,6 +63,11 @@ fn main() -> anyhow::Result<()> {
             let opts = graph::ReplayOpts { sample, seed, max_div, budget_s };
             graph::replay(&g, &mut d, &opts).to_json("votor")
         }
+        "replay-merkle" => {
+            let path = arg_after(&args, "--tlc-out").expect("--tlc-out");
+            merkle_driver::run(&path)?
+        }
+        "replay-sampler" => sampler_driver::run(&args, seed)?,
         _ => json!({"error": format!("unknown command {cmd}")}),
     };
     println!("{}", serde_json::to_string(&out)?);
